@@ -196,11 +196,13 @@ def run_job(args):
         # obligations) must not be contradictory
         lem = path.lemma_idx
         hyps0 = hbase + [f for i, f in enumerate(path.assume) if i not in lem]
-        info["canaries"] += 1
         st, _, _, _ = symrun.solve(hyps0, timeout_s=5)
         if st == "unsat":
+            # an explored path whose condition is in fact infeasible (the branch solver timed
+            # out): it carries no obligations; the job must still have a feasible path
             info["infeasible_paths"] += 1
             continue
+        info["canaries"] += 1          # "false" is not provable from this path's hypotheses
         info["canaries_ok"] += 1
         if st == "sat":
             info["covers"] += 1
